@@ -190,6 +190,67 @@ struct Trk
     }
 };
 
+// Trc<N>: user-provided copy/move CONSTRUCTORS and destructor, but trivial (defaulted) assignment: construction and
+// assignment triviality differ, as for any class that only customises how it is copied into fresh storage.
+// Its bytes may legitimately be copied by assignment (memmove), so liveness - not an address canary - is what is tracked.
+template <std::size_t N>
+struct Trc
+{
+    static_assert(N >= 5);
+    unsigned char b[N];
+    void set(std::uint32_t id)
+    {
+        std::memcpy(b, &id, 4);
+        for (std::size_t i = 4; i < N; ++i) b[i] = static_cast<unsigned char>(0xA0 + i);
+    }
+    std::uint64_t id() const
+    {
+        std::uint32_t v;
+        std::memcpy(&v, b, 4);
+        return v;
+    }
+    void check(const char* what) const { Life::get().need_live(this, what); }
+    explicit Trc(std::uint64_t id)
+    {
+        Life::get().on_construct(this, N, "value");
+        set(static_cast<std::uint32_t>(id));
+    }
+    Trc(const Trc& o)
+    {
+        o.check("copy-source");
+        Life::get().on_construct(this, N, "copy");
+        ++Life::get().copies;
+        set(static_cast<std::uint32_t>(o.id()));
+    }
+    Trc(Trc&& o) noexcept
+    {
+        o.check("move-source");
+        const auto v = static_cast<std::uint32_t>(o.id());
+        Life::get().on_construct(this, N, "move");
+        ++Life::get().moves;
+        set(v);
+        if (Life::get().is_live(&o)) o.set(0);
+    }
+    Trc& operator=(const Trc&) = default;
+    Trc& operator=(Trc&&) = default;
+    ~Trc() { Life::get().on_destroy(this); }
+    friend bool operator==(const Trc& x, const Trc& y)
+    {
+        x.check("eq");
+        y.check("eq");
+        return x.id() == y.id();
+    }
+    friend bool operator<(const Trc& x, const Trc& y)
+    {
+        x.check("lt");
+        y.check("lt");
+        return x.id() < y.id();
+    }
+};
+static_assert(!std::is_trivially_copy_constructible_v<Trc<8>> && !std::is_trivially_move_constructible_v<Trc<8>> &&
+              !std::is_trivially_destructible_v<Trc<8>> && std::is_trivially_copy_assignable_v<Trc<8>> &&
+              std::is_trivially_move_assignable_v<Trc<8>>);
+
 template <class T>
 std::uint64_t id_of(const T& t)
 {
@@ -287,9 +348,17 @@ struct Ledger
         for (std::size_t i = 0; i < GUARD; ++i)
             if (b.user[-1 - static_cast<std::ptrdiff_t>(i)] != 0xFD || b.user[b.bytes + i] != 0xFD)
             {
-                violation("mem:guard-zone-overwritten blk=" + std::to_string(b.serial));
+                violation(std::string("mem:guard-zone-overwritten kind=") + b.kind + " blk=" + std::to_string(b.serial));
+                // report a damaged zone once
+                for (std::size_t k = 0; k < GUARD; ++k) b.user[-1 - static_cast<std::ptrdiff_t>(k)] = b.user[b.bytes + k] = 0xFD;
                 return;
             }
+    }
+    // after every operation: no live block (data block or offset table, freed later or never) was written out of bounds
+    void check_all_guards()
+    {
+        for (auto& b : blocks)
+            if (b.live) check_guards(b);
     }
     void deallocate(int alloc_id, bool equal_ok, void* p, std::size_t bytes)
     {
